@@ -49,6 +49,13 @@ def plan (tier, seed):
         for n in (4, 7):
             for var in ((0, 1) if tier == 'thorough' else (0,)):
                 cases.append (dict (fam = 'dloop', kind = kind, n = n, var = var))
+    # a wire end that comes close to a junction / to the ground plane without reaching it
+    for kind in ('long', 'thick-gnd', 'thick-gnd-junction'):
+        for k in (2, 3):
+            for mask in range (2 ** k):
+                for pos in (0, 1, 2):
+                    for dend in (0, 1):
+                        cases.append (dict (fam = 'decoy', kind = kind, k = k, mask = mask, pos = pos, dend = dend))
     n = 400 if tier == 'quick' else 6000
     cases += [dict (fam = 'graph', i = i, seed = seed) for i in range (n)]
     return cases
@@ -63,6 +70,8 @@ def make (c):
         return make_ring (c)
     if c ['fam'] == 'dloop':
         return make_dloop (c)
+    if c ['fam'] == 'decoy':
+        return make_decoy (c)
     k, mask, perm, gnd, var = c ['k'], c ['mask'], c ['perm'], c ['gnd'], c ['var']
     lam  = 20.0
     segl = lam / (25 if var == 0 else 40)
@@ -122,6 +131,47 @@ def make_ring (c):
     return dict ( f = 299.8 / lam, geo = geo, media = None, src = [], loads = [], ends = ends
                 , tol = 1e-3 * min (lam / 25, 2 * rad * np.sin (np.pi / c ['n'])), style = 'auto')
 # end def make_ring
+
+def make_decoy (c):
+    """ star of k ends plus one wire that is not part of it:
+        long      - a wire of much longer segments whose end stops 4 matching tolerances (of the structure, i. e. of
+                    its shortest segment) short of the junction: that end is free
+        thick-gnd - over ground: a thick wire whose lower end hangs 4 tolerances above the plane, less than its radius:
+                    that end is free, not grounded (-junction: the star's junction itself hangs there)
+    """
+    k, mask = c ['k'], c ['mask']
+    lam  = 20.0
+    segl = lam / 40
+    tol  = 1e-3 * segl
+    gnd  = c ['kind'] != 'long'
+    rad  = 0.01 if c ['kind'] == 'long' else 6 * tol
+    J    = np.array ([0.3, -0.2, (4 * tol if c ['kind'] == 'thick-gnd-junction' else 3.0) if gnd else 0.1])
+    dirs = DIRS if not gnd else np.array ([[1, 0, 0.6], [-0.5, 0.8660254, 0.7], [-0.45, -0.8, 0.5]]) / np.linalg.norm (np.array ([[1, 0, 0.6], [-0.5, 0.8660254, 0.7], [-0.45, -0.8, 0.5]]), axis = 1) [:, None]
+    wires = []
+    for j in range (k):
+        n   = 2 + j % 3
+        far = J + dirs [j] * n * segl * (1 + 0.1 * j)
+        a, b, ej = (far, J, 1) if (mask >> j) & 1 else (J, far, 0)
+        wires.append ((gen.wire (n, a, b, rad), {ej: 'J', 1 - ej: 'f%d' % j}))
+    if c ['kind'] == 'long':
+        u   = np.array ([0.2, 0.3, -1.0]) / np.linalg.norm ([0.2, 0.3, -1.0])
+        nea = J + u * 4 * tol
+        far = nea + u * 3 * segl * 25
+        a, b = (nea, far) if c ['dend'] == 0 else (far, nea)
+        wires.insert (min (c ['pos'], len (wires)), (gen.wire (3, a, b, rad), {0: 'd0', 1: 'd1'}))
+    elif c ['kind'] == 'thick-gnd':
+        foot = np.array ([J [0] + 5.0, J [1], 4 * tol])
+        top  = foot + np.array ([0.1, 0.0, 1.0]) * 3 * segl
+        a, b = (foot, top) if c ['dend'] == 0 else (top, foot)
+        wires.insert (min (c ['pos'], len (wires)), (gen.wire (3, a, b, rad), {0: 'd0', 1: 'd1'}))
+    geo, ends = [], []
+    for wi, (g, nodes) in enumerate (wires):
+        geo.append (g)
+        for e in (0, 1):
+            ends.append (dict (w = wi, e = e, node = nodes [e], gnd = False))
+    return dict ( f = 299.8 / lam, geo = geo, media = ([[0, 0, 0]] if gnd else None), src = [], loads = [], ends = ends
+                , tol = tol, style = 'auto')
+# end def make_decoy
 
 def make_dloop (c):
     from pmv.oracles import georef
@@ -288,7 +338,9 @@ def check (c):
         if abs (tot) > (6e-6 * Imax + 1.5e-6 * (Imax >= 0.1)) * len (mem) + 1e-30:
             bad ('kcl', 'kcl-sum', 'junction %s of %d ends: into-junction currents sum to %r (max |I| %.3g)' % (node, len (mem), tot, Imax))
     sizes = sorted (len (v) for v in members.values () if len (v) > 1)
-    if c.get ('fam') == 'dloop':
+    if c.get ('fam') == 'decoy':
+        sig = 'decoy|%s|k%d|m%d|p%d%d' % (c ['kind'], c ['k'], c ['mask'], c ['pos'], c ['dend'])
+    elif c.get ('fam') == 'dloop':
         sig = 'dloop|%s|n%d' % (c ['kind'], c ['n'])
     elif c.get ('fam') == 'ring':
         sig = 'ring|n%d|att%d' % (c ['n'], c ['att'])
@@ -298,7 +350,7 @@ def check (c):
     else:
         kinds = ''.join (sorted (set (g ['k'] for g in spec ['geo'])))
         sig = 'graph|%s|%s|%s' % ('gnd' if spec ['media'] else 'free', sizes, kinds)
-    nontrivial = bool (sizes and (max (sizes) >= 3 or len (sizes) >= 2)) or c.get ('fam') in ('ring', 'dloop')
+    nontrivial = bool (sizes and (max (sizes) >= 3 or len (sizes) >= 2)) or c.get ('fam') in ('ring', 'dloop', 'decoy')
     return dict ( status = 'violation' if viol else 'held', sig = sig, nontrivial = nontrivial
                 , monitors = mon, violations = viol [:6], info = dict (N = N, sizes = sizes))
 # end def check
